@@ -131,10 +131,11 @@ def gen_inputs(ctx):
             E = half + other if app == "wif" else other + half
             out.append(("Bip85", {"master": m, "app": app, "p": 0, "ix": ix(3), "prf": {"entropy": B(E)}}, ("chosen", app, cls)))
         # the OTHER half being invalid must not matter
-        half = N.to_bytes(32, "big")
         good = (12345).to_bytes(32, "big")
-        E = good + half if app == "wif" else half + good
-        out.append(("Bip85", {"master": m, "app": app, "p": 0, "ix": ix(3), "prf": {"entropy": B(E)}}, ("chosen-other-half", app)))
+        for oth in (N, 0, 2 ** 256 - 1, N + 1):
+            half = oth.to_bytes(32, "big")
+            E = good + half if app == "wif" else half + good
+            out.append(("Bip85", {"master": m, "app": app, "p": 0, "ix": ix(3), "prf": {"entropy": B(E)}}, ("chosen-other-half", app, oth == N)))
     return out
 
 
